@@ -780,6 +780,9 @@ class Exec(Interp):
                 self.assume(st, self.spec_eval(st, chosen.returns_pred, ctx, env, fi.module, fi))
             for e in chosen.ensures_return:
                 self.assume(st, self.spec_eval(st, e, ctx, env, fi.module, fi))
+        if raises is not None:
+            for e in chosen.ensures_raise:
+                self.assume(st, self.spec_eval(st, e, ctx, env, fi.module, fi))
         if c.effect is not None and raises is None:
             c.effect(self, st, env)
         for e in list(chosen.ensures) + list(c.ensures_all):
@@ -967,6 +970,12 @@ class Exec(Interp):
                     label = e if isinstance(e, str) else getattr(e, "__name__", "ens%d" % n)
                     st.oblige("%s:post/%s/%d" % (q, cs.name, n), z3.Implies(w, g), kind="post",
                               info={"clause": label, "outcome": desc}, assume_after=False)
+                if outcome.kind == "raise":
+                    for n, e in enumerate(cs.ensures_raise):
+                        g = self.spec_eval(st, e, ctx)
+                        label = e if isinstance(e, str) else getattr(e, "__name__", "ensx%d" % n)
+                        st.oblige("%s:post/%s/exc%d" % (q, cs.name, n), z3.Implies(w, g), kind="post",
+                                  info={"clause": label, "outcome": desc}, assume_after=False)
                 if outcome.kind == "return":
                     for n, e in enumerate(cs.ensures_return):
                         g = self.spec_eval(st, e, ctx)
